@@ -55,30 +55,38 @@ Theorem C35_distinct_refuted_before_fix :
   exists c ops, ~ NoDup (cur_addrs (active (trace_unrepaired c ops))).
 Proof. exact pool_unrepaired_not_distinct. Qed.
 
-(* NTS pool (nts_pool.rs), PARTIAL.  The TCP connection, the TLS key exchange and the resolution
-   of the server named by the key exchange are oracle outcomes per loop iteration of try_spawn.
-   Proved: never more than count sources and never two sources with the same remote name (the key
-   the code uses: the SRV record name or else the server name returned by the key exchange).
+(* NTS pool (nts_pool.rs).  Model: the NtsPoolSpawner WITH the repair of branch fix-c35-nts (the
+   resolved socket address is kept per source; a key exchange result whose resolved address
+   already has a source is skipped).  The TCP connection, the TLS key exchange and the resolution
+   of the server named by the key exchange are oracle outcomes per loop iteration of try_spawn:
+   any outcome, any name, any resolved address ([ops] is any history of such rounds and of
+   removals of any id).  Proved: never more than count sources, never two sources with the same
+   remote name (the SRV record name or else the server name returned by the key exchange) and
+   never two sources with the same socket address.  The NTS pool configuration has no ignore
+   list.
    Tie (harness/ntpd/c35n.rs): the real NtsPoolSpawner against real key exchange servers on
    loopback ports whose behaviour per connection is scripted; compared with run_nts (no SRV
    resolution: the script is the list of oracle outcomes) and run_srv (SRV resolution: the
    scripted queue known_resolutions determines the outcomes through the model of lookup(),
-   srv_lookup / srv_outcomes); the two theorems after this one say that these functions run the
-   very nts_exec of this theorem.
-   What is missing, hence _partial: the C35 statement speaks of server ADDRESSES; that two
-   different remote names do not resolve to the same socket address is NOT proved, and is not
-   enforced by the code: the harness observes runs of the real spawner with two current sources
-   at one socket address (the names "localhost" and "127.0.0.1"; two SRV names whose servers
-   name the same NTP server).  The NTS pool configuration has no ignore list.  Not covered by the
-   tie: the DNS / SRV lookup itself (resolve_ke) and queue entries left over from a previous
-   round (the harness replaces the queue before every round). *)
-Theorem C35_nts_pool_bounded_distinct_names_partial : forall n ops,
+   srv_lookup / srv_outcomes); the two theorems after the next one say that these functions run
+   the very nts_exec of this theorem.  Not covered by the tie: the DNS / SRV lookup itself
+   (resolve_ke) and queue entries left over from a previous round (the harness replaces the queue
+   before every round). *)
+Theorem C35_nts_pool_bounded_distinct : forall n ops,
   let cur := ncurrent (nts_exec n ops (mkntspool [] 0)) in
-  (length cur <= n)%nat /\ NoDup (map snd cur).
+  (length cur <= n)%nat /\ NoDup (nnames cur) /\ NoDup (naddrs cur).
 Proof. exact nts_pool_safe_from_start. Qed.
 
+(* The code before the repair (same model, loop without the address test) violates address
+   distinctness: count = 2 and two key exchanges that name different servers resolving to one
+   socket address.  This is the finding (class C35-nts-pool-same-address) the check reports on a
+   tree without fix-c35-nts. *)
+Theorem C35_nts_pool_distinct_refuted_before_fix :
+  exists n ops, ~ NoDup (naddrs (ncurrent (nts_exec_unrepaired n ops (mkntspool [] 0)))).
+Proof. exact nts_pool_unrepaired_not_distinct. Qed.
+
 (* the functions the implementation is compared with end with the encoding (nts_final) of the
-   state the previous theorem speaks about: for the same history (no SRV resolution), and for the
+   state C35_nts_pool_bounded_distinct speaks about: for the same history (no SRV resolution), and for the
    history of oracle outcomes the scripted resolution queues determine (SRV resolution) *)
 Theorem C35_nts_tie_runs_the_model : forall n ops,
   exists pre, run_nts (n, ops) = pre ++ nts_final (nts_exec n ops (mkntspool [] 0)).
@@ -103,18 +111,20 @@ Example C35_nonvacuous :
 Proof. vm_compute. repeat split. Qed.
 
 Example C35_nonvacuous_nts :
-  ncurrent (nts_exec 2 [NtsTrySpawn [KeOk None 7 true; KeOk None 7 true]; NtsTrySpawn [KeTimeout]; NtsTrySpawn [KeOk (Some 8) 7 true]]
-                     (mkntspool [] 0)) = [(0, 7); (1, 8)].
+  ncurrent (nts_exec 3 [NtsTrySpawn [KeOk None 7 (Some 70); KeOk None 7 (Some 70); KeOk None 9 (Some 70)];
+                        NtsTrySpawn [KeTimeout]; NtsTrySpawn [KeOk (Some 8) 7 (Some 71); KeOk None 6 None]]
+                     (mkntspool [] 0)) = [(0, (7, 70)); (1, (8, 71))].
 Proof. vm_compute. reflexivity. Qed.
 
 (* SRV resolution, count 3: the second resolution (SRV name 20002) is answered by the same NTP
-   server 7 as the first: a second source (the key is the SRV name); the third resolution carries
-   the name of the first source and is skipped without using up a loop iteration; the fourth has
-   no SRV name and its answer names server 7: filed under 7; the closed port ends the queue *)
+   server 7 (address 70) as the first: skipped by the address test (a loop iteration is used up);
+   the third resolution carries the name of the first source and is dropped by lookup() without
+   using up a loop iteration; the fourth has no SRV name and its answer names server 8: filed
+   under 8 in the third and last iteration; the closed port that ends the queue is left (1) *)
 Example C35_nonvacuous_nts_srv :
-  run_srv (3%nat, [SrvTrySpawn [(Some 20001, SbOk 7 true); (Some 20002, SbOk 7 true); (Some 20001, SbOk 8 true);
-                                (None, SbOk 7 true); (None, SbRefused)]])
-  = [3; 3; 0; 20001; 1; 20002; 2; 7; 1; 1; 3; 0; 20001; 1; 20002; 2; 7].
+  run_srv (3%nat, [SrvTrySpawn [(Some 20001, SbOk 7 (Some 70)); (Some 20002, SbOk 7 (Some 70)); (Some 20001, SbOk 9 (Some 90));
+                                (None, SbOk 8 (Some 80)); (None, SbRefused)]])
+  = [3; 2; 0; 20001; 70; 1; 8; 80; 0; 1; 2; 0; 20001; 70; 1; 8; 80].
 Proof. vm_compute. reflexivity. Qed.
 
 Print Assumptions C35_bounded.
@@ -125,6 +135,7 @@ Print Assumptions C35_state_is_active.
 Print Assumptions C35_complete_iff.
 Print Assumptions C35_system_view.
 Print Assumptions C35_distinct_refuted_before_fix.
-Print Assumptions C35_nts_pool_bounded_distinct_names_partial.
+Print Assumptions C35_nts_pool_bounded_distinct.
+Print Assumptions C35_nts_pool_distinct_refuted_before_fix.
 Print Assumptions C35_nts_tie_runs_the_model.
 Print Assumptions C35_nts_srv_tie_runs_the_model.
